@@ -20,6 +20,7 @@ type Pkg struct {
 type World struct {
 	Pkgs      []Pkg
 	Untracked []bool
+	SelfSkip  []bool         // the package's own fingerprint is "" (its own changes are not tracked)
 	Faults    map[int]string // invocation index -> fault kind
 }
 
@@ -32,7 +33,11 @@ func (w *World) Text() []byte {
 		if i < len(w.Untracked) && w.Untracked[i] {
 			un = 1
 		}
-		fmt.Fprintf(&b, "P %d %s %d %d %d", i, p.Name, p.Ver, un, len(p.Deps))
+		ss := 0
+		if i < len(w.SelfSkip) && w.SelfSkip[i] {
+			ss = 1
+		}
+		fmt.Fprintf(&b, "P %d %s %d %d %d %d", i, p.Name, p.Ver, un, ss, len(p.Deps))
 		for _, d := range p.Deps {
 			fmt.Fprintf(&b, " %d", d)
 		}
@@ -108,7 +113,11 @@ func ParseLog(line string) (ll LogLine, err error) {
 func StateID(w *World, i int) string {
 	p := w.Pkgs[i]
 	var b strings.Builder
-	fmt.Fprintf(&b, "%s@%d[", p.Name, p.Ver)
+	if i < len(w.SelfSkip) && w.SelfSkip[i] {
+		fmt.Fprintf(&b, "%s@*[", p.Name)
+	} else {
+		fmt.Fprintf(&b, "%s@%d[", p.Name, p.Ver)
+	}
 	first := true
 	for _, d := range p.Deps {
 		if d < len(w.Untracked) && w.Untracked[d] {
